@@ -322,7 +322,7 @@ const clusterGap = 0.05
 var svdTol = map[int][]float64{
 	2: {0, 1e-11, 1e-6},
 	3: {0, 1e-10, 1e-5, 1e-3},
-	4: {0, 1e-9, 1e-3, 3e-3, 1e-2},
+	4: {0, 1e-8, 3e-3, 5e-3, 1e-2},
 }
 var eigTol = []float64{0, 1e-10, 1e-5, 1e-3}
 
